@@ -717,6 +717,42 @@ def check_bbox_tight(case, domain, out, stats):
         out.append(viol("C18", "tight", "box-not-tight", "", got=bb.tolist(), want=ref[0].tolist()))
 
 
+def check_lhs_coverage(case, domain, out, stats):
+    """C18 (iv): Latin-hypercube proposals cover the whole box -- pooled over repeated calls the
+    position of the points *within* their slab must reach every fifth of the slab, on every axis
+    (boxes only: interval and axis-aligned parallelogram, parameter free)."""
+    e = case["entry"]
+    dom = case["dom"]
+    if e.get("cls") != "LHS" or case.get("prows") or G.free_vars(dom) or dom["k"] not in ("iv", "par"):
+        return
+    one = {"_": np.zeros((1, 1))}
+    bx, _ = G.box(dom, one)
+    if dom["k"] == "par":
+        c = G.corners(dom, one, 1)[0]
+        d1, d2 = c[1] - c[0], c[3] - c[0]
+        if min(abs(d1[0]), abs(d1[1])) > 1e-9 or min(abs(d2[0]), abs(d2[1])) > 1e-9:
+            return      # not axis aligned: proposals are rejected outside the shape
+    import torchphysics as tp
+    n = int(e["n"])
+    reps = max(1, math.ceil(400 / n))
+    smp = tp.samplers.LHSSampler(domain, n_points=n)
+    U = []
+    for _ in range(reps):
+        A = smp.sample_points().as_tensor.double().numpy()
+        U.append(A)
+    A = np.concatenate(U, axis=0)
+    stats["lhs_coverage_judged"] = stats.get("lhs_coverage_judged", 0) + 1
+    for ax in range(A.shape[1]):
+        lo, hi = bx[0, 2 * ax], bx[0, 2 * ax + 1]
+        u = (A[:, ax] - lo) / (hi - lo) * n
+        u = u - np.floor(u)
+        hist = np.histogram(u, bins=5, range=(0, 1))[0]
+        if (hist == 0).any():
+            out.append(viol("C18", "lhs-coverage", "part-of-every-slab-is-never-proposed", "", axis=ax, n=n,
+                            histogram=hist.tolist(), points=len(A)))
+            return
+
+
 def check_normalization(case, domain, pts, P, out, stats):
     """C18 (iii): a NormalizationLayer built from the box maps the samples into [-1,1]^d."""
     dom = case["dom"]
@@ -810,6 +846,11 @@ def run_case(case, props=("C01", "C02", "C05", "C06", "C10", "C18"), monitors=Tr
                         check_bbox(case, domain, P, out, stats)
                         check_bbox_tight(case, domain, out, stats)
                         check_normalization(case, domain, pts, P, out, stats)
+                        sim.paused -= 1      # the LHS coverage clause draws through the simulator's stream
+                        try:
+                            check_lhs_coverage(case, domain, out, stats)
+                        finally:
+                            sim.paused += 1
                     if "C10" in props:
                         check_density_count(case, pts, out, stats)
                         check_volume_direct(case, domain, out, stats)
